@@ -138,6 +138,9 @@ type histEv struct {
 	Res   []int  `json:"res"`
 	Stale bool   `json:"stale"`
 	Node  string `json:"node,omitempty"`
+	// linstress only: the invocation line of a read carries a copy of what its response line reports
+	Fut    []int `json:"fut,omitempty"`
+	HasRet bool  `json:"hasret,omitempty"`
 }
 
 // observe records what clients could see now: responses of writes, and one read per serving leader
@@ -932,6 +935,221 @@ func stressMain(args []string) {
 	}
 }
 
+// linstress: free-running shards with concurrent writers and readers; the client history (invocations and
+// responses in real-time order) is written in the format of LinTrace.tla, one "reset" line per episode.
+func linStressMain(args []string) {
+	fs := flag.NewFlagSet("linstress", flag.ExitOnError)
+	seed := fs.Int64("seed", 1, "")
+	episodes := fs.Int("episodes", 20, "")
+	out := fs.String("out", "", "")
+	_ = fs.Parse(args)
+	slog.SetDefault(slog.New(slog.NewTextHandler(io.Discard, nil)))
+	rng := rand.New(rand.NewSource(*seed))
+	f, err := os.Create(*out)
+	if err != nil {
+		fmt.Fprintln(os.Stderr, err)
+		os.Exit(2)
+	}
+	defer f.Close()
+	enc := json.NewEncoder(f)
+	names := []string{"a", "b", "c"}
+	for ep := 0; ep < *episodes; ep++ {
+		sim, err := cluster.New(names)
+		if err != nil {
+			fmt.Fprintln(os.Stderr, err)
+			os.Exit(2)
+		}
+		sim.SetAuto(true)
+		var mu sync.Mutex // protects hist, leader, term, installed
+		hist := []histEv{{Ev: "reset", Op: ep, Res: []int{}}}
+		leader := ""
+		term := int64(-1)
+		installed := int64(-1)
+		nextOp := 0
+		elect := func() {
+			mu.Lock()
+			term++
+			t := term
+			mu.Unlock()
+			type hr struct {
+				n string
+				h *proto.EntryId
+			}
+			ch := make(chan hr, len(names))
+			for _, n := range names {
+				go func(n string) {
+					h, err := sim.NewTerm(n, t)
+					if err != nil {
+						h = nil
+					}
+					ch <- hr{n, h}
+				}(n)
+			}
+			heads := map[string]*proto.EntryId{}
+			for range names {
+				r := <-ch
+				if r.h != nil {
+					heads[r.n] = r.h
+				}
+			}
+			if len(heads) < 2 {
+				return
+			}
+			best := ""
+			for n, h := range heads {
+				if best == "" || h.Term > heads[best].Term || (h.Term == heads[best].Term && h.Offset > heads[best].Offset) {
+					best = n
+				}
+			}
+			fm := map[string]*proto.EntryId{}
+			for n, h := range heads {
+				if n != best {
+					fm[n] = h
+				}
+			}
+			sim.BecomeLeaderStart(best, t, 3, fm)
+			deadline := time.Now().Add(2 * time.Second)
+			for time.Now().Before(deadline) {
+				if fin, err := sim.BecomeLeaderResult(best); fin {
+					if err == nil {
+						mu.Lock()
+						if t > installed {
+							installed = t
+						}
+						leader = best
+						mu.Unlock()
+					}
+					return
+				}
+				time.Sleep(200 * time.Microsecond)
+			}
+			sim.BecomeLeaderCancel(best)
+		}
+		elect()
+		var wg sync.WaitGroup
+		stop := make(chan struct{})
+		nw := 2 + rng.Intn(2)
+		per := 4 + rng.Intn(4)
+		seeds := make([]int64, 8)
+		for i := range seeds {
+			seeds[i] = rng.Int63()
+		}
+		for w := 0; w < nw; w++ {
+			wg.Add(1)
+			go func(w int) {
+				defer wg.Done()
+				lr := rand.New(rand.NewSource(seeds[w]))
+				for k := 0; k < per; k++ {
+					time.Sleep(time.Duration(lr.Intn(3000)) * time.Microsecond)
+					mu.Lock()
+					l := leader
+					mu.Unlock()
+					if l == "" {
+						continue
+					}
+					// the invocation is recorded before the call (with the index the write will get)
+					mu.Lock()
+					wr, err := sim.ClientWrite(l, fmt.Sprintf("s%d-%d", w, k))
+					if err != nil || wr == nil {
+						mu.Unlock()
+						continue
+					}
+					idx := wr.Idx
+					hist = append(hist, histEv{Ev: "invw", Op: idx + 1, W: idx + 1, Res: []int{}})
+					mu.Unlock()
+					if done, e := sim.WaitWrite(idx, 1500*time.Millisecond); done && e == "" {
+						mu.Lock()
+						hist = append(hist, histEv{Ev: "retw", Op: idx + 1, Res: []int{}})
+						mu.Unlock()
+					}
+				}
+			}(w)
+		}
+		for r := 0; r < 2; r++ {
+			wg.Add(1)
+			go func(r int) {
+				defer wg.Done()
+				lr := rand.New(rand.NewSource(seeds[4+r]))
+				for {
+					select {
+					case <-stop:
+						return
+					default:
+					}
+					time.Sleep(time.Duration(500+lr.Intn(2500)) * time.Microsecond)
+					n := names[lr.Intn(len(names))]
+					mu.Lock()
+					nextOp++
+					op := 100000 + nextOp
+					inst := installed
+					hist = append(hist, histEv{Ev: "invr", Op: op, Res: []int{}, Node: n})
+					mu.Unlock()
+					idx, t, ok := sim.ReadKeys(n)
+					mu.Lock()
+					if ok {
+						res := []int{}
+						for _, i := range idx {
+							res = append(res, i+1)
+						}
+						hist = append(hist, histEv{Ev: "retr", Op: op, Res: res, Stale: t < inst, Node: n})
+					}
+					mu.Unlock()
+				}
+			}(r)
+		}
+		// disturbances while the clients run
+		nd := 1 + rng.Intn(3)
+		for d := 0; d < nd; d++ {
+			time.Sleep(time.Duration(2+rng.Intn(8)) * time.Millisecond)
+			if rng.Intn(3) == 0 {
+				mu.Lock()
+				l := leader
+				mu.Unlock()
+				fn := names[rng.Intn(len(names))]
+				if l != "" && fn != l {
+					_ = sim.ResetStream(l, fn)
+				}
+			} else {
+				elect()
+			}
+		}
+		// the writers finish on their own; then the readers are stopped
+		done := make(chan struct{})
+		go func() { wg.Wait(); close(done) }()
+		time.Sleep(time.Duration(nw*per*3/2+5) * time.Millisecond)
+		close(stop)
+		<-done
+		time.Sleep(10 * time.Millisecond)
+		sim.Close()
+		mu.Lock()
+		invAt := map[int]int{}
+		for i := range hist {
+			switch hist[i].Ev {
+			case "invr":
+				invAt[hist[i].Op] = i
+			case "retr":
+				j := invAt[hist[i].Op]
+				hist[j].HasRet = true
+				hist[j].Fut = hist[i].Res
+			}
+		}
+		for i := range hist {
+			if hist[i].Ev == "invr" {
+				// explicit fields (the trace specification reads them on every invr line)
+				fut := hist[i].Fut
+				if fut == nil {
+					fut = []int{}
+				}
+				_ = enc.Encode(map[string]any{"ev": "invr", "op": hist[i].Op, "w": 0, "res": []int{}, "stale": false,
+					"node": hist[i].Node, "fut": fut, "hasret": hist[i].HasRet})
+				continue
+			}
+			_ = enc.Encode(&hist[i])
+		}
+		mu.Unlock()
+	}
+}
+
 func raceMain(args []string) {
 	fs := flag.NewFlagSet("race", flag.ExitOnError)
 	in := fs.String("in", "", "")
@@ -1098,6 +1316,10 @@ func main() {
 	}
 	if len(os.Args) >= 2 && os.Args[1] == "stress" {
 		stressMain(os.Args[2:])
+		return
+	}
+	if len(os.Args) >= 2 && os.Args[1] == "linstress" {
+		linStressMain(os.Args[2:])
 		return
 	}
 	if len(os.Args) >= 2 && os.Args[1] == "race" {
